@@ -148,8 +148,10 @@ def generate():
     print(stats)
 
 
-def run(checks, limit, tier):
+def run(checks, limit, tier, site_filter=None):
     surv = json.load(open(os.path.join(OUT, 'survivors.json')))['survivors']
+    if site_filter:
+        surv = [s for s in surv if re.search(site_filter, s['site'])]
     res_path = os.path.join(OUT, 'results.json')
     results = json.load(open(res_path)) if os.path.exists(res_path) else {}
     # incremental passes: a mutant already killed is skipped, checks already run against it are not repeated
@@ -194,8 +196,9 @@ if __name__ == '__main__':
     ap.add_argument('--checks', default='C01,C07,C14,C15,C06,C05,C08')
     ap.add_argument('--limit', type=int, default=10 ** 6)
     ap.add_argument('--tier', default='quick')
+    ap.add_argument('--sites', default=None, help='regex over the site description, e.g. "\\[|Caseless|results name|guard|alternative|argument" to leave the +/- flips out')
     a = ap.parse_args()
     if a.cmd == 'generate':
         generate()
     else:
-        run(a.checks.split(','), a.limit, a.tier)
+        run(a.checks.split(','), a.limit, a.tier, a.sites)
